@@ -52,6 +52,9 @@ CONSTANTS MaxRoots,   \* enumeration bound on the number of roots on the command
           Source,     \* "enum" | "file"
           PermuteUpTo,\* listing orders other than the sorted one are explored for inputs with at most this many roots
           ReuseUpTo,  \* the reused output directory is explored for inputs with at most this many roots
+          SidebarIds, \* "process_counter" : ExpandableItem.last_ExpandableItem_id (pages/sidebar.py:398) is a class
+                      \*            attribute that is never reset: the ids of the expandable sidebar items continue where
+                      \*            the previous run of the process stopped  |  "per_run"
           SameProcUpTo,\* a run after another run in the same process is explored for inputs with at most this many roots
           EpochRule,  \* "is_set" : SOURCE_DATE_EPOCH fixes the build time whenever the variable exists,
                       \*            whatever its number (driver.py:39-45: int(os.environ[...]), except KeyError)
@@ -76,8 +79,14 @@ CONSTANTS MaxRoots,   \* enumeration bound on the number of roots on the command
 (*           `how` is given per member order option: [alphabetical, source]*)
 (*           (members inherited from a base: sorted by name, or by line    *)
 (*           number and then "the order of insertion", util.py:114-124)    *)
-(*   variants : <<[order, epochset, epoch, upto]>>  option variants of an  *)
-(*           input; enumerated for inputs with at most `upto` roots        *)
+(*   variants : <<[order, epochset, epoch, upto, pages, expand, permute]>> *)
+(*           option variants of an input; enumerated for inputs with at    *)
+(*           most `upto` roots.  pages = "all" | "summary"                 *)
+(*           (--html-summary-pages: only the summary pages are written -   *)
+(*           and, for a single root, the <root>.html symlink, which then   *)
+(*           dangles).  expand: --sidebar-expand-depth=2 (the sidebar has  *)
+(*           numbered expandable items).  permute: listing orders other    *)
+(*           than the sorted one are explored for this variant             *)
 Universe == IF Source = "enum" THEN JsonDeserialize(IOEnv.C18_UNIVERSE)
             ELSE [roots |-> <<>>, dirs |-> <<>>, sites |-> <<>>, variants |-> <<>>]
 \* observed runs: <<[reg, u, roots, named, setOrder, listing (seq aligned with u.dirs), outdir]>>
@@ -120,6 +129,8 @@ EpochFixes(v) == v.epochset /\ (EpochRule = "is_set" \/ v.epoch # 0)
 \* number of the first member table of this run (0 = they start at id1)
 \* TemplateWriter.writeIndividualFiles resets ChildTable.last_id: whatever the process did before (outdir = "sameproc")
 IdBase == 0
+\* number of the first expandable sidebar item (only with --sidebar-expand-depth > 1)
+SidebarBase == IF SidebarIds = "process_counter" /\ outdir = "sameproc" /\ var.expand THEN 1 ELSE 0
 BuildTime == IF EpochFixes(var) THEN <<0, var.epoch>> ELSE <<1, clock>>     \* <<1, c>>: now()
 
 RootRec(r) == CHOOSE x \in Rng(u.roots) : x.id = r
@@ -128,7 +139,7 @@ ById(a, b) == a.id < b.id
 Identity(ents) == SortSeq(ents, ById)
 \* in the "prev" phase the environment is the reference one (bound: see notes/C18.md)
 ListChoices(path) == IF phase = "prev" \/ Source = "file" THEN {}
-                     ELSE IF Len(roots) <= PermuteUpTo /\ outdir # "sameproc" THEN SetToSeqs(Rng(DirRec(path).ents))
+                     ELSE IF Len(roots) <= PermuteUpTo /\ outdir # "sameproc" /\ var.permute THEN SetToSeqs(Rng(DirRec(path).ents))
                      ELSE {Identity(DirRec(path).ents)}
 FileListing(path) ==
   LET k == CHOOSE i \in DOMAIN u.dirs : u.dirs[i].path = path IN FileRuns[pid].listing[k]
@@ -244,13 +255,14 @@ Summary == {<<0, k>> : k \in 1..5}    \* moduleIndex classIndex nameIndex undocc
 Single == Len(roots) = 1
 PageFile(m) == IF Single /\ m = <<roots[1]>> THEN <<0, 0>> ELSE <<1>> \o m      \* model.py:236-239
 Written ==
-  LET pages == {PageFile(mods[i]) : i \in DOMAIN mods}
+  LET pages == IF var.pages = "summary" THEN {}            \* --html-summary-pages (driver.py: writeSummaryPages only)
+               ELSE {PageFile(mods[i]) : i \in DOMAIN mods}
       files == pages \cup Summary \cup (IF Single THEN {<<2, roots[1]>>} ELSE {<<0, 0>>})
   IN [f \in files |->
         IF f[1] = 2 THEN [pn |-> <<>>, bt |-> <<>>, body |-> <<<<0, 0>>>>]     \* symlink target
         ELSE IF f = <<0, 5>> THEN [pn |-> projname, bt |-> BuildTime, body |-> mods]             \* allobjects order
         ELSE IF f = <<0, 0>> /\ ~Single THEN [pn |-> projname, bt |-> BuildTime, body |-> <<RootKinds>>]
-        ELSE IF f \in pages THEN [pn |-> projname, bt |-> BuildTime, body |-> <<<<IdBase>>>> \o SitesOf(ModuleOfPage(f))]
+        ELSE IF f \in pages THEN [pn |-> projname, bt |-> BuildTime, body |-> <<<<IdBase, SidebarBase>>>> \o SitesOf(ModuleOfPage(f))]
         ELSE [pn |-> projname, bt |-> BuildTime, body |-> <<>>]]      \* every page has the footer (footer.html:7)
 \* files are opened 'wb', the symlink is unlinked and re-created: new content wins, old files stay
 Overlay(old, new) ==
@@ -280,11 +292,12 @@ Post == PrintT(ToJson([dependent |-> SetToSeq(Dependent), projects |-> NProjects
 FileList(f) == SetToSeq(DOMAIN f)
 Emit == Done =>
   PrintT(ToJson([pid |-> pid, reg |-> Reg, roots |-> roots, named |-> named, var |-> var, outdir |-> outdir,
-                 buildtime |-> BuildTime, idbase |-> IdBase,
+                 buildtime |-> BuildTime, idbase |-> IdBase, sidebarbase |-> SidebarBase,
                  setOrder |-> setOrder, listing |-> listing,
                  projname |-> projname, mods |-> mods, files |-> FileList(out),
                  alldocs |-> IF <<0, 5>> \in DOMAIN out THEN out[<<0, 5>>].body ELSE <<>>,
                  rootkinds |-> IF Single THEN <<>> ELSE RootKinds,
-                 sites |-> LET idx == SelectSeq([i \in 1..Len(u.sites) |-> i], LAMBDA i : u.sites[i].mod \in Rng(mods))
+                 sites |-> IF var.pages = "summary" THEN <<>> ELSE
+                           LET idx == SelectSeq([i \in 1..Len(u.sites) |-> i], LAMBDA i : u.sites[i].mod \in Rng(mods))
                            IN [k \in DOMAIN idx |-> [name |-> u.sites[idx[k]].name, order |-> SiteOut(idx[k])]]]))
 =============================================================================
